@@ -85,3 +85,272 @@ def guarded_fields(prog):
                     if is_self_attr(it.context_expr):
                         locks.add(it.context_expr.attr)
     return sorted(set(fields)), sorted(locks)
+
+
+# =====================================================================================
+# Lock / ownership domain for the methods of ObjectPool
+# =====================================================================================
+Lin = namedtuple("Lin", "coef")  # linear combination of symbols: frozenset of (symbol, coefficient)
+Obj = namedtuple("Obj", "origin")  # 'created' | 'popped' | 'param' | 'snapshot'
+
+READ_OPS = {"__len__", "__bool__", "__iter__", "copy", "count", "index"}
+RW_OPS = {"popleft", "pop", "remove"}
+WRITE_OPS = {"append", "appendleft", "clear", "extend", "extendleft", "insert", "rotate", "reverse"}
+
+
+def lin(sym, c=1):
+    return Lin(frozenset({(sym, c)}))
+
+
+def lin_add(a, b, sign=1):
+    d = dict(a.coef)
+    for s, c in b.coef:
+        d[s] = d.get(s, 0) + sign * c
+    return Lin(frozenset((s, c) for s, c in d.items() if c != 0))
+
+
+class LockDomain(Domain):
+    """Tracks, along each path of an ObjectPool method: lock held?, the current hold's epoch, which guarded-field
+    operations happened in which hold, ownership of objects (removed from a deque by this thread)."""
+
+    async_enabled = False
+
+    def __init__(self, prog, fn, fields, lock, silent=None):
+        super().__init__(prog, fn)
+        self.fields = set(fields)
+        self.lock = lock
+        self.accesses = []  # (field, kind, node, state)   kind in read / rw / write
+        self.unlocked = []
+        self.calls_held = []  # calls made while holding the lock
+        self.problems = []  # (construct, message, node)
+        self.silent = silent
+
+    def init_state(self, fn_node):
+        st = {"lock": 0, "epoch": 0, "touched": (), "closed": ()}
+        for p in fn_node.args.args:
+            if p.arg == "obj":
+                st["obj"] = Obj("param")
+        if self.silent is not None:
+            st["silent"] = Truthiness(self.silent)
+        return Env(st)
+
+    def truth(self, v, state=None):
+        if isinstance(v, Truthiness):
+            return v.b
+        if isinstance(v, Obj):
+            return True
+        return super().truth(v, state)
+
+    def assume_name(self, key, value, branch, state):
+        if value is TOP and key.startswith("self."):
+            return state.set(key, Truthiness(branch))
+        return super().assume_name(key, value, branch, state)
+
+    # ---- guarded field access -------------------------------------------------------------
+    def _touch(self, field, kind, node, state):
+        self.accesses.append((field, kind, node, state))
+        if not state.get("lock"):
+            self.unlocked.append((field, kind, node))
+        ep = state.get("epoch")
+        touched = state.get("touched")
+        # R2: a write in a later hold than the first guarded access must be preceded by a guarded read in its own hold
+        if kind == "write":
+            earlier = [t for t in touched if t[0] < ep]
+            own_read = [t for t in touched if t[0] == ep and t[2] in ("read", "rw")]
+            if earlier and not own_read and state.get("lock"):
+                self.problems.append(("check-then-act-split:%s" % field, "`%s` writes %s in a lock hold that did not re-read any guarded field, although an earlier hold on the same path inspected %s: the check and the act are not atomic" % (node_src(node), field, "/".join(sorted({t[1] for t in earlier}))), node))
+        return state.set("touched", touched + ((ep, field, kind),) if (ep, field, kind) not in touched else touched)
+
+    def attr_load(self, objval, node, state):
+        if is_self_attr(node) and node.attr in self.fields:
+            return Opaque("field:" + node.attr)
+        if is_self_attr(node):
+            if node.attr in ("idle_timeout",):
+                return lin("timeout")
+            return state.get("self." + node.attr, TOP)
+        if isinstance(objval, Obj) and node.attr == "_last_used":
+            return lin("last_used")
+        if isinstance(objval, Opaque) and objval.tag.startswith("field:"):
+            return Opaque("meth:%s:%s" % (objval.tag[6:], node.attr))
+        return TOP
+
+    def attr_store(self, objval, node, value, state):
+        if isinstance(node.value, ast.Name) and node.attr == "_last_used":
+            return state.set(("stamp", node.value.id), "idle_clock" if value == lin("now") else ("now-var" if value == Opaque("nowvar") else "other")).set(("stamp_epoch", node.value.id), state.get("epoch") if state.get("lock") else -1)
+        if is_self_attr(node) and node.attr in self.fields:
+            self.problems.append(("field-rebound:%s" % node.attr, "guarded field self.%s is rebound" % node.attr, node))
+        return super().attr_store(objval, node, value, state)
+
+    def binop(self, node, l, r, state):
+        if isinstance(l, Lin) and isinstance(r, Lin) and isinstance(node.op, (ast.Sub, ast.Add)):
+            return lin_add(l, r, -1 if isinstance(node.op, ast.Sub) else 1)
+        return super().binop(node, l, r, state)
+
+    def compare(self, node, op, l, r, state):
+        if isinstance(l, Lin) and isinstance(r, Lin) and isinstance(op, (ast.Lt, ast.LtE, ast.Gt, ast.GtE)):
+            return TOP
+        return super().compare(node, op, l, r, state)
+
+    def refine_compare(self, node, op, lexpr, l, rexpr, r, branch, state):
+        if isinstance(l, Lin) and isinstance(r, Lin) and isinstance(op, (ast.Lt, ast.LtE, ast.Gt, ast.GtE)):
+            d = lin_add(l, r, -1)  # l - r  (op) 0
+            le = isinstance(op, (ast.Lt, ast.LtE))
+            if not branch:
+                le = not le
+            coef = dict(d.coef)
+            age_minus_t = {"now": 1, "last_used": -1, "timeout": -1}
+            neg = {k: -v for k, v in age_minus_t.items()}
+            if coef == age_minus_t:
+                fresh = le  # age - T <= 0  => fresh
+            elif coef == neg:
+                fresh = not le
+            else:
+                self.problems.append(("idle-comparison-shape", "comparison `%s` is not of the form (now - last_used) vs idle_timeout" % node_src(node), node))
+                return state
+            return state.set("fresh", fresh)
+        return super().refine_compare(node, op, lexpr, l, rexpr, r, branch, state)
+
+    def with_enter(self, item, value, state):
+        if is_self_attr(item.context_expr, self.lock):
+            if state.get("lock"):
+                self.problems.append(("lock-reacquired", "the non-reentrant lock is acquired while already held", item.context_expr))
+            return [("ok", TOP, state.set("lock", 1).set("epoch", state.get("epoch") + 1))]
+        return super().with_enter(item, value, state)
+
+    def with_exit(self, item, value, kind, state):
+        if is_self_attr(item.context_expr, self.lock):
+            return [("ok", state.set("lock", 0), False)]
+        return super().with_exit(item, value, kind, state)
+
+    def for_next(self, node, itval, state):
+        if isinstance(itval, Opaque) and itval.tag.startswith("field:"):
+            state = self._touch(itval.tag[6:], "read", node, state)
+            return [(Obj("snapshot"), state)]
+        if isinstance(itval, Opaque) and itval.tag.startswith("locallist:"):
+            return [(Obj("from:" + itval.tag[10:]), state)]
+        return super().for_next(node, itval, state)
+
+    def name_load(self, name, state, node=None):
+        return state.get(name, TOP)
+
+    def call(self, node, fval, args, kwargs, state):
+        name = call_name(node)
+        if state.get("lock"):
+            self.calls_held.append((name, node))
+        # operations on a guarded deque:  self._x.op(...)
+        if isinstance(fval, Opaque) and fval.tag.startswith("meth:"):
+            _, field, op = fval.tag.split(":")
+            if op in RW_OPS:
+                st = self._touch(field, "rw", node, state)
+                if op in ("popleft", "pop"):
+                    return [("ok", Obj("popped:" + field), st.drop("fresh")), ("exc", Exc(ORD, "IndexError", node.lineno), st)]
+                # remove(obj): success => the caller owns obj (removed by this thread in this hold)
+                st_ok = st
+                if node.args and isinstance(node.args[0], ast.Name):
+                    st_ok = st.set(("removed", node.args[0].id), (field, st.get("epoch")))
+                return [("ok", NONE, st_ok), ("exc", Exc(ORD, "ValueError", node.lineno), st)]
+            if op in WRITE_OPS:
+                st = self._touch(field, "write", node, state)
+                if op in ("append", "appendleft") and node.args and isinstance(node.args[0], ast.Name):
+                    st = st.set(("in", field, node.args[0].id), st.get("epoch"))
+                if op == "clear":
+                    st = st.set(("cleared", field), st.get("epoch"))
+                return [("ok", NONE, st)]
+            st = self._touch(field, "read", node, state)
+            return [("ok", TOP, st)]
+        # guarded deque passed as an argument: len(self._x), tuple(self._x), lst.extend(self._x)
+        st = state
+        for a, an in zip(args, node.args):
+            if isinstance(a, Opaque) and a.tag.startswith("field:"):
+                st = self._touch(a.tag[6:], "read", node, st)
+                if isinstance(node.func, ast.Attribute) and node.func.attr == "extend" and isinstance(node.func.value, ast.Name):
+                    lst = node.func.value.id
+                    st = st.set(("ext", lst), tuple(sorted(set(st.get(("ext", lst), ())) | {(a.tag[6:], st.get("epoch"))})))
+        if name == "self._obj_creator":
+            if state.get("free_empty") is not True:
+                self.problems.append(("create-before-reuse", "a new object is created on a path where the free list was not found empty", node))
+            return [("ok", Obj("created"), st), ("exc", Exc(ORD, None, node.lineno), st)]
+        if name == "self._idle_clock":
+            return [("ok", lin("now"), st)]
+        if name == "self._after_remove":
+            self._after_remove(node, args, st)
+            cl = st.get("closed")
+            nm = node.args[0].id if node.args and isinstance(node.args[0], ast.Name) else "?"
+            if nm in cl:
+                self.problems.append(("closed-twice", "_after_remove can be called twice for `%s` on one path" % nm, node))
+            st = st.set("closed", cl + (nm,))
+            return [("ok", NONE, st), ("exc", Exc(ORD, None, node.lineno), st)]
+        if name in ("len", "tuple", "list", "bool", "isinstance"):
+            return [("ok", TOP, st)]
+        if isinstance(node.func, ast.Attribute) and node.func.attr == "extend":
+            return [("ok", NONE, st)]
+        if isinstance(node.func, ast.Attribute) and is_self_attr(node.func.value, self.lock):
+            self.problems.append(("explicit-lock-call", "the lock is used through .%s() instead of `with`: release on every exit is no longer guaranteed by the language" % node.func.attr, node))
+        return [("ok", TOP, st), ("exc", Exc(ORD, None, node.lineno), st)]
+
+    def _after_remove(self, node, args, state):
+        """R3: the argument must be owned: popped by this thread, removed by this thread, or an element of a local
+        snapshot list all of whose source deques were cleared in the hold that took the snapshot."""
+        if not node.args or not isinstance(node.args[0], ast.Name):
+            self.problems.append(("after-remove-arg", "_after_remove called with a non-variable argument", node))
+            return
+        nm = node.args[0].id
+        v = state.get(nm, TOP)
+        owned = False
+        why = "unknown origin"
+        if isinstance(v, Obj):
+            if v.origin.startswith("popped:"):
+                owned = True
+                if state.get("fresh") is True:
+                    self.problems.append(("fresh-object-closed", "an object that passed the idle test is closed", node))
+            elif v.origin.startswith("from:"):
+                lst = v.origin[5:]
+                ext = state.get(("ext", lst), ())
+                owned = bool(ext) and all(state.get(("cleared", f), None) == ep for f, ep in ext)
+                why = "snapshot list `%s` taken from %s, cleared in the same hold: %s" % (lst, [f for f, e in ext], owned)
+            elif v.origin == "param":
+                rm = state.get(("removed", nm), None)
+                owned = rm is not None
+                why = "removed by this thread: %s" % (rm,)
+            elif v.origin == "created":
+                owned = True
+        if not owned:
+            self.problems.append(("after-remove-of-unowned:%s" % nm, "_after_remove(%s) is reachable for an object this thread did not remove from the pool (%s): it could be closed twice or while another thread uses it" % (nm, why), node))
+
+    def subscript_load(self, objval, idxval, node, state):
+        return TOP, False
+
+    def make_list(self, items, node, state):
+        return TOP
+
+    def name_store(self, name, value, state, node=None):
+        # re-binding a variable: facts about the object it named no longer apply to it
+        cl = state.get("closed", ())
+        if name in cl:
+            state = state.set("closed", tuple(x for x in cl if x != name))
+        for k in [k for k in state.d if isinstance(k, tuple) and len(k) >= 2 and k[-1] == name and k[0] in ("removed", "stamp", "stamp_epoch", "in")]:
+            state = state.drop(k)
+        if value is TOP and node is not None:
+            p = getattr(node, "_parent", None)
+            # needs_destroy: list[T] = []  -> a local list that can receive snapshots
+            if isinstance(p, (ast.Assign, ast.AnnAssign)) and isinstance(p.value, ast.List) and not p.value.elts:
+                return state.set(name, Opaque("locallist:" + name))
+        return state.set(name, value)
+
+    def assume(self, expr, value, branch, state):
+        # `while self._free_objs:` / `if not self._free_objs`
+        if isinstance(value, Opaque) and value.tag.startswith("field:"):
+            st = self._touch(value.tag[6:], "read", expr, state)
+            if value.tag[6:].endswith("free_objs") or "free" in value.tag:
+                st = st.set("free_empty", not branch)
+            return st
+        return super().assume(expr, value, branch, state)
+
+
+def run_pool_method(prog, name, fields, lock, silent=None):
+    pool = prog.cls("ObjectPool")
+    fn = prog.method(pool, name)
+    dom = LockDomain(prog, fn, fields, lock, silent=silent)
+    interp = Interp(dom, fn.node, prog)
+    outs = interp.run(dom.init_state(fn.node))
+    return fn, dom, outs, interp
